@@ -48,18 +48,18 @@ def ringStep (r : RB Nat) (line : String) : RB Nat × String :=
 
 /-! ### pnq -/
 
-def showEntry (e : Entry) : String := s!"{showBool e.present}:{e.val}"
+def showEntry (e : Entry Nat) : String := s!"{showBool e.present}:{e.val}"
 
-def showPNQ (q : PNQ) : String :=
+def showPNQ (q : PNQ Nat) : String :=
   s!"n={q.present} first={q.first} last={q.lastPacket} slots={q.slotsUsed} {showRB showEntry q.entries}"
 
-def showRet : Ret → String
+def showRet : Ret Nat → String
   | .flag b => if b then "true" else "false"
   | .entry none => "nil"
   | .entry (some v) => s!"v {v}"
   | .unit => "ok"
 
-def parseOp : List String → Option Op
+def parseOp : List String → Option (Op Nat)
   | ["emp", pn, v] =>
     match pn.toInt? with
     | none => none
@@ -69,13 +69,13 @@ def parseOp : List String → Option Op
   | ["upto", n] => n.toInt?.map .removeUpTo
   | _ => none
 
-def pnqInit : PNQ := new 0
+def pnqInit : PNQ Nat := new 0
 
-def pnqStep (q : PNQ) (line : String) : PNQ × String :=
+def pnqStep (q : PNQ Nat) (line : String) : PNQ Nat × String :=
   match fields line with
   | ["reset", n] =>
     match n.toNat? with
-    | some n => let q' := new n; (q', s!"ok {showPNQ q'}")
+    | some n => let q' : PNQ Nat := new n; (q', s!"ok {showPNQ q'}")
     | none => (q, "bad-op")
   | fs =>
     match parseOp fs with
